@@ -496,6 +496,65 @@ pub fn alias_of(base: u16, how: u8) -> u16 {
     }
 }
 
+/// Attribute types the IANA STUN registry assigns to *other* specifications (RFC 5780, 6062, 6679,
+/// 7635, 7982, 8016, 8656, vendor ranges), with the value length their definition gives (0 where it
+/// is variable). None of them is built into the library: they are opaque raw attributes to it, and a
+/// uniform 16-bit draw meets each about once in 65 536.
+pub const REGISTERED_OTHER: &[(u16, u16)] = &[
+    (0x0002, 8),
+    (0x0003, 4),
+    (0x0004, 8),
+    (0x0005, 8),
+    (0x0007, 0),
+    (0x000B, 8),
+    (0x000C, 4),
+    (0x000D, 4),
+    (0x0010, 4),
+    (0x0012, 8),
+    (0x0012, 20),
+    (0x0013, 0),
+    (0x0016, 8),
+    (0x0016, 20),
+    (0x0017, 4),
+    (0x0018, 1),
+    (0x0019, 4),
+    (0x001A, 0),
+    (0x001B, 0),
+    (0x0021, 4),
+    (0x0022, 8),
+    (0x0026, 0),
+    (0x0027, 4),
+    (0x002A, 4),
+    (0x8000, 4),
+    (0x8001, 8),
+    (0x8004, 8),
+    (0x8025, 4),
+    (0x8027, 4),
+    (0x802B, 8),
+    (0x802C, 8),
+    (0x802D, 4),
+    (0x802E, 0),
+    (0x8030, 0),
+    (0xC000, 0),
+    (0xC001, 0),
+    (0xC002, 0),
+    (0xC003, 0),
+    (0xC056, 0),
+    (0xC057, 4),
+    (0xC058, 0),
+    (0xC059, 0),
+    (0xC05B, 0),
+    (0xC05C, 0),
+    (0xC05D, 0),
+    (0xC05E, 0),
+    (0xC060, 4),
+];
+
+/// the length the registry's definition gives to a registered type (first entry), if any
+pub fn registered_len(ty: u16) -> Option<u16> {
+    REGISTERED_OTHER.iter().find(|(t, l)| *t == ty && *l > 0).map(|(_, l)| *l)
+}
+
 /// an unknown (not built-in) attribute type, both comprehension-required and optional
 pub fn unknown_type() -> BoxedStrategy<u16> {
     // boundary codes (the extremes of both halves of the type space, and the neighbours of the
@@ -511,7 +570,8 @@ pub fn unknown_type() -> BoxedStrategy<u16> {
         Just(0xffffu16),
         (0usize..19, prop_oneof![Just(1i32), Just(-1i32)]).prop_map(|(i, d)| (crate::refattrs::ALL_KINDS[i].code() as i32 + d) as u16),
     ];
-    prop_oneof![4 => any::<u16>(), 1 => boundary, 1 => alias_type()]
+    let registered = (0usize..REGISTERED_OTHER.len()).prop_map(|i| REGISTERED_OTHER[i].0);
+    prop_oneof![4 => any::<u16>(), 1 => boundary, 1 => alias_type(), 1 => registered]
         .prop_map(|t| if Kind::from_code(t).is_some() { t ^ 0x0100 } else { t })
         .prop_filter("built-in", |t| Kind::from_code(*t).is_none())
         .boxed()
@@ -605,7 +665,13 @@ pub fn attr_spec() -> BoxedStrategy<AttrSpec> {
             fields_strategy(kind).prop_map(move |fields| AttrSpec::Typed { kind, fields })
         })
         .boxed();
-    let raw_unknown = (unknown_type(), bytes_len(raw_len())).prop_map(|(ty, v)| AttrSpec::Raw { ty, value: Hex(v) });
+    // a registered type carries a value of the length its definition gives in half of the cases
+    let raw_unknown = (unknown_type(), bytes_len(raw_len()), any::<bool>()).prop_map(|(ty, mut v, natural)| {
+        if let (true, Some(l)) = (natural, registered_len(ty)) {
+            v.resize(l as usize, 0x01);
+        }
+        AttrSpec::Raw { ty, value: Hex(v) }
+    });
     let raw_known = ((0usize..16), bytes_len(raw_len())).prop_map(|(i, v)| AttrSpec::Raw {
         ty: NON_TAIL_KINDS[i].code(),
         value: Hex(v),
@@ -779,6 +845,36 @@ impl MsgSpec {
         let mut b = self.builder(&m)?;
         self.seal_builder(&mut b)?;
         Ok(b.build())
+    }
+
+    /// The other ways a user gets bytes out of the same sealed builder: `write_into` a used buffer,
+    /// `clone()`, `into_owned()` after or before sealing, and combinations. Each entry is (how, bytes);
+    /// what is demanded of them is up to the caller (C04: validates under the sealing credentials,
+    /// C09: the FINGERPRINT is the CRC of what precedes it; byte equality is C12's statement).
+    pub fn lib_build_paths(&self) -> Result<Vec<(&'static str, Vec<u8>)>, String> {
+        let m = self.materialise()?;
+        let mut out = vec![];
+        let dirty = |b: &MessageBuilder<'_>, fill: u8| -> Result<Vec<u8>, String> {
+            let n = b.byte_len();
+            let mut dest = vec![fill; n + 8];
+            let w = b.write_into(&mut dest).map_err(|e| format!("write_into refused: {:?}", e))?;
+            dest.truncate(w);
+            Ok(dest)
+        };
+        let mut b = self.builder(&m)?;
+        self.seal_builder(&mut b)?;
+        out.push(("write_into a 0xA5-filled buffer", dirty(&b, 0xA5)?));
+        out.push(("clone().build()", b.clone().build()));
+        let owned = b.clone().into_owned();
+        out.push(("into_owned() after sealing, build()", owned.build()));
+        out.push(("into_owned() after sealing, write_into a 0xFF-filled buffer", dirty(&owned, 0xFF)?));
+        out.push(("build() again after into_owned() of a clone", b.build()));
+        let b2 = self.builder(&m)?;
+        let mut owned2 = b2.into_owned();
+        self.seal_builder(&mut owned2)?;
+        out.push(("into_owned() before sealing, build()", owned2.build()));
+        out.push(("into_owned() before sealing, write_into a 0x01-filled buffer", dirty(&owned2, 0x01)?));
+        Ok(out)
     }
 
     /// independent serialisation: reference attribute encodings, reference HMAC / CRC
